@@ -5,7 +5,8 @@
 use super::Families;
 use crate::ast::*;
 use crate::diff::{differential, Verdict};
-use crate::obs::ObsCfg;
+use crate::obs::{eval_observed, ObsCfg, Outcome};
+use crate::val::{render_val, same_val, Val};
 use crate::print::to_text;
 use crate::rng::{hash_str, Rng};
 use crate::sup::{Check, Ctx, Flavour, Stats, Summary, Tier};
@@ -73,6 +74,8 @@ impl C13 {
             ("failed-write-leaves-unchanged", if ctx.flavour == Flavour::Miri { 30 } else { (FW_SEQS.len() * FW_WRITES.len()) as u64 }),
             ("directed", directed().len() as u64),
             ("random-op-sequences", rnd),
+            // exactly N changes in place between two reads, for N around every power of two at which a counter might wrap
+            ("modification-counts", if ctx.flavour == Flavour::Miri { 0 } else { (MOD_COUNTS.len() * 3) as u64 }),
             // long strings measured, indexed, changed in place and replaced, judged by what the run prints (props/strlife.rs)
             ("string-lifecycle", match (ctx.flavour, ctx.tier) { (Flavour::Miri, _) => 40, (Flavour::Rel, Tier::Quick) => 4_000, (Flavour::Rel, Tier::Thorough) => 300_000, (_, Tier::Quick) => 300, _ => 5_000 }),
         ])
@@ -422,6 +425,8 @@ impl C13 {
     }
 }
 
+const MOD_COUNTS: [u64; 13] = [1, 2, 3, 255, 256, 257, 65_535, 65_536, 65_537, 131_071, 131_072, 131_073, 262_144];
+
 impl Check for C13 {
     fn id(&self) -> &'static str {
         "C13"
@@ -434,6 +439,9 @@ impl Check for C13 {
     }
     fn describe_case(&mut self, ctx: &Ctx, idx: u64) -> String {
         let (_, name, i) = self.fams(ctx).locate(idx);
+        if name == "modification-counts" {
+            return format!("modification-counts #{}", i);
+        }
         if name == "string-lifecycle" {
             return super::strlife::generate(&mut Rng::for_case(ctx.seed, 13_900, i), super::strlife::Focus::Measure).text;
         }
@@ -448,6 +456,37 @@ impl Check for C13 {
             }
             if name == "failed-write-leaves-unchanged" {
                 self.failed_write(ctx, i, st);
+                return;
+            }
+            if name == "modification-counts" {
+                let n = MOD_COUNTS[(i / 3) as usize];
+                let (text, want) = match i % 3 {
+                    // a read, n - 1 changes that move nothing, one change that moves the character read before, the read again
+                    0 => (
+                        format!("stel s = \"aaez\"; stel eerst = s[3]; stel k = 1; zolang k < {n} {{ s[1] = \"a\"; k += 1 }}; s[0] = \"é\"; [eerst, s, lengte(s), s[3], s[-1]]", n = n),
+                        Val::Array(vec![Val::Str("z".into()), Val::Str("éaez".into()), Val::Int(4), Val::Str("z".into()), Val::Str("z".into())]),
+                    ),
+                    // every change moves the later characters: widths 1 and 2 in turn
+                    1 => (
+                        format!("stel s = \"abcdefgh\"; stel eerst = s[6]; stel k = 0; zolang k < {n} {{ als k % 2 == 0 {{ s[2] = \"é\" }} anders {{ s[2] = \"c\" }}; k += 1 }}; [eerst, s[6], s[-1], lengte(s), s[2]]", n = n),
+                        Val::Array(vec![Val::Str("g".into()), Val::Str("g".into()), Val::Str("h".into()), Val::Int(8), Val::Str(if n % 2 == 1 { "é" } else { "c" }.into())]),
+                    ),
+                    // an array: n stores between two reads
+                    _ => (
+                        format!("stel a = [1, 2, 3, [4.5]]; stel eerst = a[3]; stel k = 0; zolang k < {n} {{ a[1] = k; k += 1 }}; a[0] = \"nul\"; [eerst, a[3], a[1], a[0], lengte(a)]", n = n),
+                        Val::Array(vec![Val::Array(vec![Val::Float(4.5)]), Val::Array(vec![Val::Float(4.5)]), Val::Int(n as i64 - 1), Val::Str("nul".into()), Val::Int(4)]),
+                    ),
+                };
+                st.distinct_hash(hash_str(&text));
+                for (tag, mut cfg) in [("quarantine", ObsCfg::default()), ("plain-allocator", ObsCfg::plain(0))] {
+                    cfg.budget = Some(10_000_000);
+                    let o = eval_observed(&text, &cfg);
+                    st.evaluations += 1;
+                    if !matches!(&o.outcome, Outcome::Value(v) if same_val(v, &want)) {
+                        st.violation(&format!("modification-counts:{}:{}", tag, if matches!(o.outcome, Outcome::Value(_)) { "value".to_string() } else { o.outcome.class() }), format!("after {} changes in place: expected {}, got {}", n, render_val(&want), o.outcome.render()), &text);
+                        return;
+                    }
+                }
                 return;
             }
             if name == "string-lifecycle" {
